@@ -60,6 +60,9 @@ def main():
         flags += ' -g -fsanitize=address -fno-omit-frame-pointer'
     if '-fsanitize=undefined' in src + res['needs']:
         flags += ' -fsanitize=undefined -fno-sanitize-recover=undefined'
+    m = re.search(r"cc ((?:'-D[^']*'|-D\S+)(?: (?:'-D[^']*'|-D\S+))*) -Iinc", res['needs'])
+    if m and 'LIST_OF_USER_ERRORS' in m.group(1):
+        flags = m.group(1)          # a user error list given on the command line of the demonstration
     res['demo_flags'] = flags
     if '--wrap' in src + res['needs']:
         flags += ' -Wl,--wrap=strndup -Wl,--wrap=free'
